@@ -6,6 +6,11 @@ ALL = ["C%02d" % i for i in range(1, 35)]
 
 # id -> (category, technique, text, note, design_ref)
 CHECKS = {
+ "C05": ("exploration",
+         "exhaustive enumeration of all small predefined-topic maps against a precedence reference",
+         "All 4096 maps {c1,*} x id{1,2,3} -> {absent,\"\",x,y} (empty tables both missing and present) and the repository's own topics.yaml, for client ids {c1,c2,*}, all ids 0..4 and all names: GetTopicName equals the reference precedence; every id GetTopicID returns reads back as the same name; an id is found whenever one resolves to the name.",
+         "Go map iteration order cannot be enumerated; by-name lookups are repeated 8 times.",
+         "3 C05"),
  "C18": ("model_checking",
          "stateless model checking of the real transactions code: all interleavings within a preemption bound under a cooperative scheduler (virtual timers as choices)",
          "Every interleaving (within the stated preemption bound; quick 3, thorough iterates 3..8) of Success/Fail/Proceed/timer expiry/cancellation threads on the real RetryTransaction and TimedTransaction, with a monitor evaluated at every scheduling step (Done closes once, Err constant afterwards, completion callback exactly once, no retry callback after Done, no panic). This is the level at which the property is stated: it quantifies over schedules.",
